@@ -162,7 +162,7 @@ func init() {
 			nGen = c.Pick(1500, 40000)
 			return nil
 		},
-		Cases: func(c *mon.Ctx) int { return c17PairCases(c) + nGen + nSeeds + c.Pick(3000, 100000) },
+		Cases: func(c *mon.Ctx) int { return c17PairCases(c) + c17RelCases(c) + nGen + nSeeds + c.Pick(3000, 100000) },
 		RunCase: func(c *mon.Ctx, i int) {
 			rng := c.Rng(i, 0)
 			if i < c17PairCases(c) {
@@ -170,6 +170,11 @@ func init() {
 				return
 			}
 			i -= c17PairCases(c)
+			if i < c17RelCases(c) {
+				c17Relatives(c, i, rng)
+				return
+			}
+			i -= c17RelCases(c)
 			if i < nGen {
 				k := 2 + rng.Intn(4)
 				if i%7 == 0 {
@@ -227,6 +232,10 @@ func init() {
 			ev.Coverage["general_name_pool_pairs"] = r.Counters["pool_pairs"]
 			if r.Counters["pool_pairs"] < int64(len(gen.GNPool)*(len(gen.GNPool)-1)/2) {
 				gates = append(gates, "not every pair of general-name pool entries was built")
+			}
+			ev.Coverage["relative_triples"] = r.Counters["relative_triples"]
+			if r.Counters["relative_triples"] < 5000 {
+				gates = append(gates, "too few relative triples built")
 			}
 			if r.Counters["bases_san"] < 500 || r.Counters["bases_extension"] < 500 {
 				gates = append(gates, "too few bases compared")
@@ -287,4 +296,62 @@ func c17Pair(c *mon.Ctx, i int, rng *rand.Rand) {
 	}
 	c.R.Count("pool_pairs", 1)
 	c17Judge(c, fmt.Sprintf("gen/pair%v", labels), dc, "san", sanList, rng, labels)
+}
+
+// ---- relatives ----
+//
+// Duplicate detection, "already seen" sets and sort-based scans go wrong when a name meets a RELATIVE of itself (the
+// same name in other letter case, repeated exactly, with a trailing dot, as a wildcard sibling) with some third name
+// between or around them. Every dNSName pool entry is combined with each kind of relative and every third entry
+// (quick: third from the dNSName entries; thorough: from the whole pool); all six orders are compared.
+func c17Relative(kind int, name string) string {
+	switch kind {
+	case 0:
+		return strings.ToUpper(name)
+	case 1:
+		return name
+	case 2:
+		if len(name) > 0 {
+			return strings.ToUpper(name[:1]) + name[1:]
+		}
+		return name
+	default:
+		return name + "."
+	}
+}
+
+func c17Thirds(c *mon.Ctx) []gen.GNPoolEntry {
+	if c.Thorough() {
+		return gen.GNPool
+	}
+	return gen.DNSPool()
+}
+
+func c17RelCases(c *mon.Ctx) int { return len(gen.DNSPool()) * 4 * len(c17Thirds(c)) }
+
+func c17Relatives(c *mon.Ctx, i int, rng *rand.Rand) {
+	dns := gen.DNSPool()
+	thirds := c17Thirds(c)
+	e := dns[i%len(dns)]
+	i /= len(dns)
+	kind := i % 4
+	x := thirds[i/4%len(thirds)]
+	en := e.Node()
+	if en.Class != 2 || en.Tag != 2 {
+		return
+	}
+	rel := gen.GNDNS(c17Relative(kind, string(en.Content)))
+	gns := []*der.Node{rel, x.Node(), en}
+	labels := []string{fmt.Sprintf("relative(%d) of %s", kind, e.Label), x.Label, e.Label}
+	spec := gen.TLSLeaf(gen.D(2024, 3, 1), "www.example.com")
+	if (i+kind)%3 == 0 {
+		spec.Subject = gen.Name(gen.A(gen.OIDC, "US"), gen.A(gen.OIDO, "Example Org"))
+	}
+	spec.ReplaceExt(gen.ExtSAN(false, gns...))
+	dc, err := der.ParseCert(spec.DER())
+	if err != nil {
+		return
+	}
+	c.R.Count("relative_triples", 1)
+	c17Judge(c, fmt.Sprintf("gen/relatives%v", labels), dc, "san", sanList, rng, labels)
 }
